@@ -156,6 +156,13 @@ func (u *PsipURI) AdjustOffs(newpos PField) bool {
 		return false
 	}
 	start := u.Scheme.Offs
+	// check if all the fields (including the delimiters) fit in newpos
+	for _, f := range [...]PField{u.Scheme, u.User, u.Pass, u.Host, u.Port,
+		u.Params, u.Headers} {
+		if (f.Offs != 0 || f.Len != 0) && (f.Offs+f.Len-start) > newpos.Len {
+			return false
+		}
+	}
 	last := offs
 	u.Scheme.Offs = offs
 	if u.User.Offs != 0 {
